@@ -508,6 +508,9 @@ func load(T types.Type, addr *value) value {
 		v := (*addr).(array)
 		a := make(array, len(v))
 		for i := range a {
+			if v[i] == nil {
+				v[i] = zero(T.Elem())
+			}
 			a[i] = load(T.Elem(), &v[i])
 		}
 		return a
@@ -520,6 +523,9 @@ func load(T types.Type, addr *value) value {
 func (in *interpreter) store(T types.Type, addr *value, v value) {
 	switch T := T.Underlying().(type) {
 	case *types.Struct:
+		if *addr == nil {
+			*addr = zero(T)
+		}
 		lhs := (*addr).(structure)
 		rhs := v.(structure)
 		for i := range lhs {
@@ -529,6 +535,9 @@ func (in *interpreter) store(T types.Type, addr *value, v value) {
 		lhs := (*addr).(array)
 		rhs := v.(array)
 		for i := range lhs {
+			if lhs[i] == nil {
+				lhs[i] = zero(T.Elem())
+			}
 			in.store(T.Elem(), &lhs[i], rhs[i])
 		}
 	default:
